@@ -609,6 +609,7 @@ func isInfra(err error) bool { return err != nil && strings.HasPrefix(err.Error(
 // it fails again (the handler goroutines' schedule is not owned by the harness).
 func check(r *vlib.Run, l cl.Local, h *host, sc scenario) (verdict error, infra error) {
 	var first error
+	infraRetries := 0
 	for attempt := 0; attempt < 2; attempt++ {
 		ch, err := h.get()
 		if err != nil {
@@ -632,6 +633,12 @@ func check(r *vlib.Run, l cl.Local, h *host, sc scenario) (verdict error, infra 
 				// frames went through InjectFrame under recover, so a dead child is a fatal error
 				// (e.g. concurrent map write) - report it as the listener's failure with its banner
 				err = fmt.Errorf("the canary process died while handling well-formed connections: %s", ch.Death())
+			} else if infraRetries == 0 {
+				// harness trouble (a barrier that timed out on an overloaded machine): once more on a fresh child
+				infraRetries++
+				h.close()
+				attempt--
+				continue
 			} else {
 				return nil, err
 			}
@@ -994,7 +1001,12 @@ func TestScenarios(t *testing.T) {
 		return
 	}
 	r.Rule(ruleText)
+	box := &cl.Infra{}
 	r.Rapid(t, "TestScenarios", r.Pick(1200, 12000), func(rt *rapid.T) {
+		if box.Err() != nil {
+			rapid.Bool().Draw(rt, "skipped-after-infra-error")
+			return
+		}
 		sc := genScenario(rt, 4)
 		label, fp := fingerprint(sc)
 		r.Case("scenario/"+label, fp, func() interface{} { return sc })
@@ -1004,12 +1016,16 @@ func TestScenarios(t *testing.T) {
 		}
 		verr, infra := check(r, l, h, sc)
 		if infra != nil {
-			rt.Fatalf("infra: %v", infra)
+			box.Set(infra)
+			return
 		}
 		if verr != nil {
 			r.Fail(rt, "TestScenarios", sc, "%v", verr)
 		}
 	})
+	if e := box.Err(); e != nil {
+		t.Fatalf("infra: %v", e)
+	}
 }
 
 // TestInterleavings enumerates every interleaving of short connection scripts for the
